@@ -486,4 +486,237 @@ theorem canon_shift (l : List Tok) (keep d : Nat) (h : keep + d ≤ l.length) :
   congr 2
   omega
 
+
+/-! ## Remove as a whole -/
+
+theorem view_pos_bound (cells : List Cell) (s : Nat) (hb : PosBound cells) :
+    ∀ x ∈ view cells s, 0 ≤ x.1 ∧ x.1 < maxI32 := by
+  intro x hx
+  unfold view at hx
+  obtain ⟨c, hc, rfl⟩ := List.mem_map.mp hx
+  exact hb c (List.mem_filter.mp hc).1
+
+theorem remove_other (cs : Bool) (cells : List Cell) (s t : Nat) (h : t ≠ s) (b e : Int) :
+    view (remove cs cells s b e).1 t = view cells t := by
+  unfold remove
+  simp only
+  split
+  · exact removeGo_other s t h ..
+  · next hok =>
+    split
+    · exact removeGo_other s t h ..
+    · split
+      · exact removeGo_other s t h ..
+      · split
+        · exact removeGo_other s t h ..
+        · rw [rope_view_other s t h _ _ _ (removeGo_exclusive s b e _ cells (by simpa using hok))]
+          exact removeGo_other s t h ..
+
+theorem remove_bound (cs : Bool) (cells : List Cell) (s : Nat) (b e : Int) (hb : PosBound cells)
+    (h0 : 0 ≤ b) (hbe : b ≤ e) : PosBound (remove cs cells s b e).1 := by
+  have hg : PosBound (removeGo s b e (if e = maxI32 then 0 else b - e) cells).1 := by
+    apply removeGo_bound _ _ _ _ _ _ _ hb <;> split <;> omega
+  unfold remove
+  simp only
+  split
+  · exact hg
+  · split
+    · exact hg
+    · split
+      · exact hg
+      · split
+        · exact hg
+        · exact rope_bound _ _ _ _ hg
+
+/-- `Remove(s, b, MaxInt32)`: never fails on bounded cells and cuts the view at `b` -/
+theorem remove_clear (cs : Bool) (cells : List Cell) (s : Nat) (b : Int) (hb : PosBound cells) :
+    (remove cs cells s b maxI32).2 = none ∧
+    view (remove cs cells s b maxI32).1 s = (view cells s).filter (fun x => decide (x.1 < b)) := by
+  obtain ⟨h1, h2⟩ := removeGo_clear s b cells hb
+  unfold remove
+  simp only [if_true, h1, Bool.false_eq_true, if_false]
+  split
+  · exact ⟨rfl, h2⟩
+  · exact ⟨rfl, h2⟩
+
+/-- a successful shifting Remove: the own view is shifted (metadata and key rows together) -/
+theorem remove_shift_self (cells : List Cell) (s : Nat) (b e : Int) (hbe : b ≤ e) (he : e ≠ maxI32)
+    (hok : (remove true cells s b e).2 = none) :
+    view (remove true cells s b e).1 s = (view cells s).filterMap (shiftEntry b e (b - e)) := by
+  unfold remove at hok ⊢
+  simp only [he, if_false] at hok ⊢
+  split at hok
+  · cases hok
+  · next hgo =>
+    have hgo' : (removeGo s b e (b - e) cells).2 = false := by simpa using hgo
+    have hself := removeGo_self s b e (b - e) cells hgo'
+    simp only [hgo, if_false]
+    have hpt : ∀ x : Int × Tok × Int, (shiftMeta b e (b - e) x).map (ropeEntry b (b - e)) = shiftEntry b e (b - e) x := by
+      intro x
+      unfold shiftMeta shiftEntry ropeEntry
+      by_cases h1 : b ≤ x.1 ∧ x.1 < e
+      · simp [h1]
+      · by_cases h2 : e ≤ x.1
+        · have : b ≤ x.1 + (b - e) := by omega
+          simp [h1, h2, this]
+        · have : ¬ b ≤ x.1 := by omega
+          simp [h1, h2, this]
+    split
+    · next hany =>
+      -- no cell of `s` is left
+      have hnil : view (removeGo s b e (b - e) cells).1 s = [] := by
+        unfold view
+        have : (removeGo s b e (b - e) cells).1.filter (·.has s) = [] := by
+          apply List.filter_eq_nil_iff.mpr
+          intro c hc hcs
+          have : (removeGo s b e (b - e) cells).1.any (·.has s) = true := List.any_eq_true.mpr ⟨c, hc, hcs⟩
+          simp [this] at hany
+        simp [this]
+      rw [hnil]
+      rw [hself] at hnil
+      have hall := List.filterMap_eq_nil_iff.mp hnil
+      symm
+      apply List.filterMap_eq_nil_iff.mpr
+      intro x hx
+      have := hall x hx
+      rw [← hpt x, this]; rfl
+    · simp only [Bool.not_true, Bool.false_eq_true, if_false]
+      rw [rope_view_self, hself, List.map_filterMap]
+      apply List.filterMap_congr
+      intro x _
+      exact hpt x
+
+/-! ## slot selection folds -/
+
+theorem getSlot_eq (l : List Slot) (i : Nat) (h : i < l.length) : getSlot l i = l[i] := by
+  simp [getSlot, List.getD_eq_getElem?_getD, h]
+
+theorem ccp_le_left : ∀ (a b : List Tok), countCommonPrefix a b ≤ a.length
+  | [], _ => by simp [countCommonPrefix]
+  | _ :: _, [] => by simp [countCommonPrefix]
+  | x :: xs, y :: ys => by
+    unfold countCommonPrefix
+    split
+    · have := ccp_le_left xs ys; simp only [List.length_cons]; omega
+    · simp
+
+theorem ccp_le_right : ∀ (a b : List Tok), countCommonPrefix a b ≤ b.length
+  | [], _ => by simp [countCommonPrefix]
+  | _ :: _, [] => by simp [countCommonPrefix]
+  | x :: xs, y :: ys => by
+    unfold countCommonPrefix
+    split
+    · have := ccp_le_right xs ys; simp only [List.length_cons]; omega
+    · simp
+
+/-- the first `countCommonPrefix a b` inputs of `a` and `b` coincide -/
+theorem ccp_take : ∀ (a b : List Tok) (k : Nat), k ≤ countCommonPrefix a b → a.take k = b.take k
+  | [], _, k => by intro h; simp [countCommonPrefix] at h; subst h; simp
+  | _ :: _, [], k => by intro h; simp [countCommonPrefix] at h; subst h; simp
+  | x :: xs, y :: ys, k => by
+    intro h
+    unfold countCommonPrefix at h
+    split at h
+    · next hxy =>
+      cases k with
+      | zero => simp
+      | succ k => simp only [List.take_succ_cons, hxy]; congr 1; exact ccp_take xs ys k (by omega)
+    · have : k = 0 := by omega
+      subst this; simp
+
+theorem longestGo_spec (prompt : List Tok) (ss : List Slot) (k : Nat) (best r : Option (Nat × Nat))
+    (h : longestGo prompt ss k best = r) :
+    r = best ∨ ∃ j, ∃ hj : j < ss.length, r = some (k + j, countCommonPrefix ss[j].inputs prompt) ∧ ss[j].inUse = false := by
+  induction ss generalizing k best with
+  | nil => left; simpa [longestGo] using h.symm
+  | cons s ss ih =>
+    unfold longestGo at h
+    have lift : ∀ b', (r = b' ∨ ∃ j, ∃ hj : j < ss.length, r = some (k + 1 + j, countCommonPrefix ss[j].inputs prompt) ∧ ss[j].inUse = false) →
+        (r = b' ∨ ∃ j, ∃ hj : j < (s :: ss).length, r = some (k + j, countCommonPrefix (s :: ss)[j].inputs prompt) ∧ (s :: ss)[j].inUse = false) := by
+      intro b' hh
+      rcases hh with hh | ⟨j, hj, h1, h2⟩
+      · exact Or.inl hh
+      · refine Or.inr ⟨j + 1, by simp only [List.length_cons]; omega, ?_, ?_⟩
+        · rw [h1]; simp only [List.getElem_cons_succ]; congr 2; omega
+        · simpa using h2
+    by_cases hu : s.inUse
+    · simp only [hu, if_true] at h
+      exact lift _ (ih (k + 1) best h)
+    · simp only [hu, Bool.false_eq_true, if_false] at h
+      have here : ∃ j, ∃ hj : j < (s :: ss).length, some (k, countCommonPrefix s.inputs prompt) = some (k + j, countCommonPrefix (s :: ss)[j].inputs prompt) ∧ (s :: ss)[j].inUse = false :=
+        ⟨0, by simp, by simp, by simpa using hu⟩
+      cases best with
+      | none =>
+        simp only at h
+        rcases lift _ (ih (k + 1) _ h) with hh | hh
+        · right; rw [hh]; exact here
+        · exact Or.inr hh
+      | some bb =>
+        obtain ⟨bi, bc⟩ := bb
+        simp only at h
+        by_cases hgt : countCommonPrefix s.inputs prompt > bc
+        · simp only [hgt, if_true] at h
+          rcases lift _ (ih (k + 1) _ h) with hh | hh
+          · right; rw [hh]; exact here
+          · exact Or.inr hh
+        · simp only [hgt, if_false] at h
+          exact lift _ (ih (k + 1) _ h)
+
+theorem bestLongestGo_spec (prompt : List Tok) (ss : List Slot) (k : Nat) (best r : Option (Nat × Nat))
+    (h : bestLongestGo prompt ss k best = r) :
+    r = best ∨ ∃ j, ∃ hj : j < ss.length, r = some (k + j, countCommonPrefix ss[j].inputs prompt) := by
+  induction ss generalizing k best with
+  | nil => left; simpa [bestLongestGo] using h.symm
+  | cons s ss ih =>
+    unfold bestLongestGo at h
+    have lift : ∀ b', (r = b' ∨ ∃ j, ∃ hj : j < ss.length, r = some (k + 1 + j, countCommonPrefix ss[j].inputs prompt)) →
+        (r = b' ∨ ∃ j, ∃ hj : j < (s :: ss).length, r = some (k + j, countCommonPrefix (s :: ss)[j].inputs prompt)) := by
+      intro b' hh
+      rcases hh with hh | ⟨j, hj, h1⟩
+      · exact Or.inl hh
+      · refine Or.inr ⟨j + 1, by simp only [List.length_cons]; omega, ?_⟩
+        rw [h1]; simp only [List.getElem_cons_succ]; congr 2; omega
+    have here : ∃ j, ∃ hj : j < (s :: ss).length, some (k, countCommonPrefix s.inputs prompt) = some (k + j, countCommonPrefix (s :: ss)[j].inputs prompt) :=
+      ⟨0, by simp, by simp⟩
+    simp only at h
+    cases best with
+    | none =>
+      simp only at h
+      rcases lift _ (ih (k + 1) _ h) with hh | hh
+      · right; rw [hh]; exact here
+      · exact Or.inr hh
+    | some bb =>
+      obtain ⟨bi, bc⟩ := bb
+      simp only at h
+      by_cases hgt : countCommonPrefix s.inputs prompt > bc
+      · simp only [hgt, if_true] at h
+        rcases lift _ (ih (k + 1) _ h) with hh | hh
+        · right; rw [hh]; exact here
+        · exact Or.inr hh
+      · simp only [hgt, if_false] at h
+        exact lift _ (ih (k + 1) _ h)
+
+theorem oldestGo_spec (ss : List Slot) (k oldest : Nat) (best r : Option Nat)
+    (h : oldestGo ss k oldest best = r) :
+    r = best ∨ ∃ j, ∃ hj : j < ss.length, r = some (k + j) ∧ ss[j].inUse = false := by
+  induction ss generalizing k oldest best with
+  | nil => left; simpa [oldestGo] using h.symm
+  | cons s ss ih =>
+    unfold oldestGo at h
+    have lift : ∀ b', (r = b' ∨ ∃ j, ∃ hj : j < ss.length, r = some (k + 1 + j) ∧ ss[j].inUse = false) →
+        (r = b' ∨ ∃ j, ∃ hj : j < (s :: ss).length, r = some (k + j) ∧ (s :: ss)[j].inUse = false) := by
+      intro b' hh
+      rcases hh with hh | ⟨j, hj, h1, h2⟩
+      · exact Or.inl hh
+      · refine Or.inr ⟨j + 1, by simp only [List.length_cons]; omega, ?_, by simpa using h2⟩
+        rw [h1]; congr 1; omega
+    by_cases hc : (decide (s.lastUsed < oldest) && !s.inUse) = true
+    · simp only [hc, if_true] at h
+      have hu : s.inUse = false := by simp at hc; exact hc.2
+      rcases lift _ (ih (k + 1) _ _ h) with hh | hh
+      · right; exact ⟨0, by simp, by simpa using hh, by simpa using hu⟩
+      · exact Or.inr hh
+    · simp only [hc, Bool.false_eq_true, if_false] at h
+      exact lift _ (ih (k + 1) _ _ h)
+
 end OllamaVerif.Runner
